@@ -110,7 +110,9 @@ fn cmd_eval(args: &[String]) {
     exec::install_panic_hook();
     let text = std::fs::read_to_string(&args[0]).expect("read case");
     let j = J::parse(&text).expect("parse case");
-    let case = Case::from_json(if j.get("case").is_some() { j.at("case") } else { &j });
+    // a replay file / shrink request wraps the case; a bare case (which may itself have a "case" member) does not
+    let wrapped = j.get("case").is_some() && (j.get("property").is_some() || j.get("violation").is_some());
+    let case = Case::from_json(if wrapped { j.at("case") } else { &j });
     let out = case.check();
     match out.violation {
         Some(v) => println!("VIOL {}", violation_json(&v).to_string()),
